@@ -11,8 +11,8 @@ from __future__ import annotations
 from ..absint import Config, Interp
 from ..harness import rule
 from ..index import AnalysisError
-from ..models import BASE_STUBS, explore_recv, frame_dims, mk_websocket, recv_config
-from ..rulekit import OPNAMES, path_text
+from ..models import BASE_STUBS, explore_recv, frame_dims, mk_websocket, reasm_after, recv_config
+from ..rulekit import OPNAMES, new_obj, path_text
 from ..values import C, FALSE, NONE, TRUE, App, Ref, Sym, Tup, Value, concat
 
 Q = "_core:WebSocket.recv_data_frame"
@@ -76,17 +76,17 @@ def r1(ctx):
             op = d["opcode"]
             if not (op.lo == op.hi and op.lo in (8, 9, 10)):
                 continue
-            cd, rf = _cont(o)
-            ok = isinstance(cd, list) and len(cd) == 2 and cd[0] == C(op0) and cd[1] == ACC and rf == C(op0)
-            per.setdefault(op.lo, []).append((ok, cd, rf, o))
+            after = reasm_after(o)
+            ok = after == o.run.memo.get("@reasm_before")   # by value: whatever fields the reassembler keeps, none of them changed
+            per.setdefault(op.lo, []).append((ok, after, None, o))
         for opn in (8, 9, 10):
             lst = per.get(opn, [])
             if not lst:
                 raise AnalysisError(f"no accepted {OPNAMES[opn]} path in state {state}")
             bad = [x for x in lst if not x[0]]
             ctx.ob(f"{Q}:{state}:{OPNAMES[opn]}:reassembly-untouched", not bad,
-                   f"{len(lst)} paths leave (buffer, opcode-in-progress) unchanged" if not bad else
-                   f"after a {OPNAMES[opn]} between fragments the reassembly state is buffer={bad[0][1]!r} in-progress={bad[0][2]!r}",
+                   f"{len(lst)} paths leave the reassembler as it was" if not bad else
+                   f"after a {OPNAMES[opn]} between fragments the reassembler holds {bad[0][1]!r:.200} (it was {bad[0][3].run.memo.get('@reasm_before')!r:.200})",
                    loc, {"path": path_text(bad[0][3])} if bad else None)
 
 
@@ -110,23 +110,23 @@ def r2(ctx):
             own = _payload_before_add(o)
             first_op = first if first is not None else op.lo
             whole = concat([ACC, own], "bytes") if state != "idle" else own
-            cd, rf = _cont(o)
+            after = reasm_after(o)
             key = f"{Q}:{state}:{OPNAMES[op.lo]}:fin={fin.lo}"
             seen.add((op.lo, fin.lo))
             if fin.lo == 0:
-                ok = o.kind == "backedge" and isinstance(cd, list) and len(cd) == 2 and cd[0] == C(first_op) \
-                    and cd[1].key() == whole.key() and rf == C(first_op)
-                ctx.ob(key, ok, "fragment buffered: (first opcode, acc ++ payload), message stays in progress" if ok else
-                       f"after a non-final fragment: outcome {o.kind}, buffer {cd!r}, in-progress {rf!r}; expected buffer "
-                       f"[{first_op}, {whole!r}] and no delivery", loc, {"path": path_text(o)})
+                # nothing is delivered and the reassembler is not idle; *what* it holds is judged by the frame sequences below
+                ok = o.kind == "backedge" and after != o.run.memo.get("@reasm_idle")
+                ctx.ob(key, ok, "fragment kept, nothing delivered, message stays in progress" if ok else
+                       f"after a non-final fragment: outcome {o.kind}, reassembler {after!r:.160}; expected no delivery and a message in progress", loc, {"path": path_text(o)})
             else:
                 okv = o.kind == "return" and isinstance(o.value, Tup) and len(o.value.items) == 2 and o.value.items[0] == C(first_op)
                 data = None
                 if okv and isinstance(o.value.items[1], Ref):
                     data = o.run.cell(o.value.items[1]).fields.get("data")
-                ok = okv and data is not None and data.key() == whole.key() and cd in (None, NONE) and rf in (None, NONE)
-                ctx.ob(key, ok, "message delivered once with the first opcode and acc ++ payload; state reset" if ok else
-                       f"final fragment: outcome {o.kind} value {o.value!r} data {data!r}, buffer {cd!r}, in-progress {rf!r}; "
+                idle = after == o.run.memo.get("@reasm_idle")
+                ok = okv and data is not None and data.key() == whole.key() and idle
+                ctx.ob(key, ok, "message delivered once with the first opcode and acc ++ payload; reassembler back as constructed" if ok else
+                       f"final fragment: outcome {o.kind} value {o.value!r} data {data!r}, reassembler afterwards {after!r:.160}; "
                        f"expected ({first_op}, {whole!r}) and an idle reassembler", loc, {"path": path_text(o)})
         want = {(op, f) for op in legal_ops for f in (0, 1)}
         if not want <= seen:
@@ -150,19 +150,21 @@ def r3(ctx):
                 continue
             seen.add((op.lo, fin.lo))
             own = _payload_before_add(o)
-            cd, rf = _cont(o)
+            after = reasm_after(o)
             okv = o.kind == "return" and isinstance(o.value, Tup) and len(o.value.items) == 2 and o.value.items[0] == C(op.lo)
             data = ffin = None
             if okv and isinstance(o.value.items[1], Ref):
                 fr = o.run.cell(o.value.items[1]).fields
                 data, ffin = fr.get("data"), fr.get("fin")
-            first_op = first if first is not None else op.lo
-            want_rf = NONE if fin.lo else C(first_op)
-            ok = okv and data is not None and data.key() == own.key() and cd in (None, NONE) and rf == want_rf
+            # after the final fragment the reassembler is as constructed; after a non-final one it is where the first fragment left it
+            # (message in progress, nothing buffered): both by value
+            want_state = o.run.memo.get("@reasm_idle") if fin.lo else (o.run.memo.get("@reasm_before") if state != "idle" else None)
+            ok = okv and data is not None and data.key() == own.key() and (want_state is None or after == want_state) \
+                and (fin.lo == 1 or after != o.run.memo.get("@reasm_idle"))
             ctx.ob(f"{Q}:{state}:{OPNAMES[op.lo]}:fin={fin.lo}", ok,
-                   "fragment returned individually (own opcode, own payload), buffer empty, in-progress marker kept until fin" if ok else
-                   f"outcome {o.kind} value {o.value!r} data {data!r} buffer {cd!r} in-progress {rf!r}; expected "
-                   f"({op.lo}, {own!r}) and in-progress {want_rf!r}", loc, {"path": path_text(o)})
+                   "fragment returned individually (own opcode, own payload); message in progress until fin, then the reassembler is as constructed" if ok else
+                   f"outcome {o.kind} value {o.value!r} data {data!r} reassembler afterwards {after!r:.160}; expected "
+                   f"({op.lo}, {own!r}) and {'an idle reassembler' if fin.lo else 'a message still in progress with nothing buffered'}", loc, {"path": path_text(o)})
         want = {(op, f) for op in legal_ops for f in (0, 1)}
         if not want <= seen:
             raise AnalysisError(f"state {state}: classes {sorted(want - seen)} not covered")
@@ -308,3 +310,88 @@ def r_sib_r_c04_9(ctx):
 def r_sib_r_c04_10(ctx):
     from .c07 import r7 as loop_not_recursion
     loop_not_recursion(ctx)
+
+
+_OPS = {"T": 1, "B": 2, "C": 0, "PING": 9, "PONG": 10}
+
+
+def _seq_world(ctx, script, fire, calls):
+    """recv_data_frame interpreted over a scripted stream of frames (opcode, fin) with symbolic payloads p0, p1, ...;
+    the frame reader is the boundary, the loop and the reassembler are the repo's own."""
+    from ..absint import RaiseSig
+    from ..values import HObj
+
+    def feed(I, run, args, kwargs, node):
+        k = len([e for e in run.effects if e.name == "recv_frame"])
+        run.effect("recv_frame", (), node=node)
+        if k >= len(script):
+            raise RaiseSig(run.alloc(HObj("builtins.EOFError", {"args": Tup(())})), node)
+        name, fin = script[k]
+        if name in ("PING", "PONG"):
+            run.assume_range(App("len", (Sym(f"p{k}", "bytes"),), "int"), 0, 125)   # a legal control frame
+        return new_obj(run, "_abnf:ABNF", f"frame{k}", fin=C(fin), rsv1=C(0), rsv2=C(0), rsv3=C(0), opcode=C(_OPS[name]), mask_value=C(0), data=Sym(f"p{k}", "bytes"))
+
+    stubs = dict(BASE_STUBS)
+    stubs["_core:WebSocket.recv_frame"] = feed
+    stubs["_core:WebSocket.pong"] = _stub("pong")
+    stubs["_core:WebSocket.send_close"] = _stub("send_close")
+    stubs["_utils:validate_utf8"] = lambda I, run, a, k, n: TRUE
+    I = Interp(ctx.index, Config(stubs=stubs, loop_unroll=len(script) + 2))
+
+    def body(run):
+        ws = mk_websocket(I, run, skip=TRUE, fire=TRUE if fire else FALSE)
+        res = []
+        for _ in range(calls):
+            res.append(I.call(run, I.getattr(run, ws, "recv_data_frame", None), [FALSE], {}, None))
+        return Tup(tuple(res))
+
+    return I, ctx.count_paths(I.explore(body))
+
+
+def _ref_reassemble(script, fire):
+    """what each call must return: list of (opcode, [payload indices], fin or None)"""
+    out = []
+    cur = None
+    for k, (name, fin) in enumerate(script):
+        if name in ("PING", "PONG"):
+            continue
+        if fire:
+            out.append((_OPS[name], [k], fin))
+            continue
+        if name in ("T", "B"):
+            cur = [_OPS[name], [k]]
+        else:
+            cur[1].append(k)
+        if fin:
+            out.append((cur[0], cur[1], None))
+            cur = None
+    return out
+
+
+@rule("R-C04-11", min_instances=8, title="frame sequences (up to five frames, control frames in between): each receive call returns the first opcode of its message and the fragments' payloads concatenated in arrival order; the next message starts from nothing -- decided on the calls' results, not on the reassembler's fields")
+def r11(ctx):
+    loc = ctx.index.loc(ctx.index.func(Q).node)
+    scripts = [[("T", 1)], [("T", 0), ("C", 1)], [("B", 0), ("C", 0), ("C", 1)], [("T", 0), ("C", 0), ("C", 0), ("C", 1)], [("T", 0), ("PING", 1), ("C", 0), ("PONG", 1), ("C", 1)],
+               [("T", 0), ("C", 1), ("B", 1)], [("B", 0), ("C", 1), ("T", 0), ("C", 1)], [("T", 1), ("T", 1)], [("B", 0), ("C", 0), ("C", 1), ("B", 0), ("C", 1)]]
+    for fire in (False, True):
+        for script in scripts:
+            want = _ref_reassemble(script, fire)
+            I, outs = _seq_world(ctx, script, fire, len(want))
+            label = " ".join(f"{n}{f}" for n, f in script) + (" (per-fragment delivery)" if fire else "")
+            if not outs:
+                raise AnalysisError(f"sequence {label}: no path")
+            bad = None
+            for o in outs:
+                got = []
+                okk = o.kind == "return" and isinstance(o.value, Tup) and len(o.value.items) == len(want)
+                if okk:
+                    for res, (op, idxs, fin) in zip(o.value.items, want):
+                        data = o.run.cell(res.items[1]).fields.get("data") if isinstance(res, Tup) and len(res.items) == 2 and isinstance(res.items[1], Ref) else None
+                        whole = concat([Sym(f"p{i}", "bytes") for i in idxs], "bytes") if len(idxs) > 1 else Sym(f"p{idxs[0]}", "bytes")
+                        got.append((res.items[0] if isinstance(res, Tup) else res, data))
+                        okk = okk and isinstance(res, Tup) and res.items[0] == C(op) and data is not None and I.resolve(o.run, data).key() == whole.key()
+                if not okk:
+                    bad = bad or (got, o)
+            ctx.ob(f"{Q}:sequence:{label}", bad is None, f"{len(want)} call(s) on {len(outs)} path(s): opcodes and concatenations as expected" if bad is None else
+                   f"frames {label}: the calls give {[(repr(a), repr(b)[:60]) for a, b in bad[0]] if bad[0] else (bad[1].kind, bad[1].exc_class)}; expected "
+                   f"{[(op, '+'.join(f'p{i}' for i in idxs)) for op, idxs, _ in want]}", loc, {"path": path_text(bad[1], 12)} if bad else None)
